@@ -32,7 +32,7 @@ var c01TypedNames = []string{"int0", "false", "nil", "slice-tag", "map-tag", "sl
 
 var c01Sinks = []string{"text", "vtext", "attri", "bound", "vbind"}
 var c01Neighs = []string{"N0", "Nplain", "NentBefore", "NampAfter", "NattrEnt", "NattrLt"}
-var c01Constructs = []string{"top", "if", "else", "forroot", "forrootOuter", "forchild", "incbound", "incinterp", "slotprop", "slotnamed", "layout", "iffor", "slot2inc", "slot2incnamed", "forinc", "slot2", "slot2if", "slot2else", "slotloopif", "comp2if", "again"}
+var c01Constructs = []string{"top", "if", "else", "forroot", "forrootOuter", "forchild", "incbound", "incinterp", "slotprop", "slotnamed", "layout", "iffor", "slot2inc", "slot2incnamed", "forinc", "slot2", "slot2if", "slot2else", "slotloopif", "comp2if", "again", "increq", "incwrap", "increqslot"}
 
 func c01NeighOK(sink, neigh string) bool {
 	switch sink {
@@ -118,6 +118,16 @@ func c01Program(sink, neigh, construct string) (Files, string) {
 	case "forinc": // v-for on the include tag itself, prop interpolated from the item
 		f["page.vuego"] = `<div><template v-for="it in items" include="c.vuego" p="{{ it }}"></template></div>`
 		f["c.vuego"] = c01Sink(sink, neigh, "p", "")
+	case "increq": // the documented component shape: a <template :required> root around the body
+		f["page.vuego"] = `<div><template include="c.vuego" :p="v"></template></div>`
+		f["c.vuego"] = `<template :required="p">` + c01Sink(sink, neigh, "p", "") + `</template>`
+	case "incwrap": // a wrapper component whose root is itself an include
+		f["page.vuego"] = `<div><template include="w.vuego" :q="v"></template></div>`
+		f["w.vuego"] = `<template include="c.vuego" :p="q"></template>`
+		f["c.vuego"] = c01Sink(sink, neigh, "p", "")
+	case "increqslot": // template-rooted component whose slot receives the sink
+		f["page.vuego"] = `<div><template include="c.vuego" :p="v">` + c01Sink(sink, neigh, "v", "") + `</template></div>`
+		f["c.vuego"] = `<template :required="p"><section><slot></slot></section></template>`
 	case "slot2": // the sink itself is slot content that the component uses twice (one source node, two evaluations)
 		f["page.vuego"] = `<div><template include="s2.vuego">` + c01Sink(sink, neigh, "v", "") + `</template></div>`
 		f["s2.vuego"] = `<section><slot></slot><hr><slot></slot></section>`
